@@ -665,25 +665,7 @@ func (e *Eng) CutContradicting(assume ...LitM) func(b *ssa.BasicBlock, succ int)
 		if m, ok := eqCache[fn]; ok {
 			return m
 		}
-		m := map[string]map[string]bool{}
-		for _, b := range fn.Blocks {
-			for _, l := range e.EdgeLits(b, 0) {
-				for _, a := range []string{l.Atom, l.Alt} {
-					lhs, k, ok := eqAtom(a)
-					if !ok {
-						continue
-					}
-					for _, am := range assume {
-						if am.F(Lit{Atom: a, Pos: true}) {
-							if m[lhs] == nil {
-								m[lhs] = map[string]bool{}
-							}
-							m[lhs][k] = true
-						}
-					}
-				}
-			}
-		}
+		m := e.assumedEq(fn, assume)
 		eqCache[fn] = m
 		return m
 	}
@@ -1064,19 +1046,31 @@ func (e *Eng) ValStrs(fn *ssa.Function, vs []ssa.Value) []string {
 	return out
 }
 
-// InstrDominates reports whether a is executed before b on every path reaching b.
+// InstrDominates reports whether a is executed before b on every path reaching b.  It is
+// decided by path-sensitive reachability (b unreachable once a is a barrier), which unlike
+// the dominator tree is not confused by the join blocks of flattened helpers.
 func InstrDominates(a, b ssa.Instruction) bool {
+	if a == b {
+		return true
+	}
+	if a.Parent() != b.Parent() {
+		return false
+	}
 	if a.Block() == b.Block() {
 		for _, in := range a.Block().Instrs {
 			if in == a {
 				return true
 			}
 			if in == b {
-				return false
+				break
 			}
 		}
 	}
-	return dominates(a.Block(), b.Block())
+	if dominates(a.Block(), b.Block()) && a.Block() != b.Block() {
+		return true
+	}
+	w := &Walk{Fn: a.Parent(), Barrier: func(in ssa.Instruction) bool { return in == a }}
+	return !w.FromEntry().Has(b)
 }
 
 // ---------------------------------------------------------------------------
